@@ -131,4 +131,48 @@ MUTANTS = [
                 if not self._not_full.wait(timeout=timeout):
                     raise Full
             self._queue.append(item)"""),
+    # ---------------- C16
+    dict(id='C16-m1', prop='C16', file=S, desc='D1 regression: async feeder assigns the failed future to fut but enqueues t',
+         old="""                    except Exception as e:
+                        t = asyncio.Future()
+                        t.set_exception(e)""",
+         new="""                    except Exception as e:
+                        fut = asyncio.Future()
+                        fut.set_exception(e)"""),
+    dict(id='C16-m2', prop='C16', file=S, desc='async feeder enqueues the preprocessed value as x (return_x pairs with it)',
+         old="""                        t = await func(xx, **func_kwargs)
+                await tasks.put((x, t))""",
+         new="""                        t = await func(xx, **func_kwargs)
+                        x = xx if tasks.full() else x
+                await tasks.put((x, t))"""),
+    dict(id='C16-m3', prop='C16', file=S, desc='async consumer returns exception of a done later task first when return_exceptions (order)',
+         old="""            x, t = z
+            try:
+                y = await t
+            except Exception as e:
+                if return_exceptions:
+                    y = e
+                else:
+                    raise""",
+         new="""            x, t = z
+            try:
+                y = await t
+            except Exception as e:
+                if return_exceptions:
+                    y = e
+                elif not tasks.empty():
+                    y = e
+                else:
+                    raise"""),
+    dict(id='C16-m4', prop='C16', file=SA, desc='AsyncParmapperAsync forwards return_x only when concurrency > 1',
+         old="""            capacity=self._concurrency * 2,
+            return_x=self._return_x,
+            return_exceptions=self._return_exceptions,
+            preprocessor=self._preprocessor,
+            loop=asyncio.get_running_loop(),""",
+         new="""            capacity=self._concurrency * 2,
+            return_x=self._return_x and self._concurrency > 1,
+            return_exceptions=self._return_exceptions,
+            preprocessor=self._preprocessor,
+            loop=asyncio.get_running_loop(),"""),
 ]
